@@ -8,6 +8,7 @@ package main
 import (
 	"bytes"
 	"context"
+	"encoding/json"
 	"errors"
 	"fmt"
 	"io"
@@ -46,6 +47,10 @@ type event struct {
 	To     string `json:"to,omitempty"`     // http: node the request was addressed to
 	Status int    `json:"status,omitempty"` // http status seen by the client (0 = no response)
 	Err    string `json:"err,omitempty"`
+	// POST /halt answered 200: the position carried by the lock in the response body
+	GrantTXID uint64 `json:"grant_txid,omitempty"`
+	GrantChk  uint64 `json:"grant_chk,omitempty"`
+	HasGrant  bool   `json:"has_grant,omitempty"`
 }
 
 type recorder struct {
@@ -100,10 +105,17 @@ type tap struct {
 	rec   *recorder
 
 	mu          sync.Mutex
-	loseResp    map[string]int // "POST /tx" -> how many responses to lose
-	dropReq     map[string]int // "POST /tx" -> how many requests to drop before they are sent
-	txLog       []txCopy       // every /tx body this node tried to send
-	partitioned bool           // no /halt or /tx request of this node reaches anybody
+	loseResp    map[string]int   // "POST /tx" -> how many responses to lose
+	dropReq     map[string]int   // "POST /tx" -> how many requests to drop before they are sent
+	txLog       []txCopy         // every /tx body this node tried to send
+	partitioned bool             // no /halt or /tx request of this node reaches anybody
+	onSend      func(key string) // called right before a /halt or /tx request goes out (nil = nobody waits for it)
+}
+
+func (t *tap) notifySend(f func(key string)) {
+	t.mu.Lock()
+	t.onSend = f
+	t.mu.Unlock()
 }
 
 func (t *tap) partition(on bool) {
@@ -192,6 +204,12 @@ func (t *tap) RoundTrip(req *http.Request) (*http.Response, error) {
 		t.rec.add(ev)
 		return nil, errors.New("fault injection: request lost")
 	}
+	t.mu.Lock()
+	onSend := t.onSend
+	t.mu.Unlock()
+	if onSend != nil {
+		onSend(key)
+	}
 	resp, err := t.inner.RoundTrip(req)
 	if err != nil {
 		ev.Err = err.Error()
@@ -199,6 +217,21 @@ func (t *tap) RoundTrip(req *http.Request) (*http.Response, error) {
 		return nil, err
 	}
 	ev.Status = resp.StatusCode
+	if key == "POST /halt" && resp.StatusCode == 200 {
+		// keep the granted lock's position: what the primary told the holder to start from
+		b, rerr := io.ReadAll(resp.Body)
+		_ = resp.Body.Close()
+		if rerr != nil {
+			ev.Err = rerr.Error()
+			t.rec.add(ev)
+			return nil, rerr
+		}
+		var hl litefs.HaltLock
+		if json.Unmarshal(b, &hl) == nil {
+			ev.GrantTXID, ev.GrantChk, ev.HasGrant = uint64(hl.Pos.TXID), uint64(hl.Pos.PostApplyChecksum), true
+		}
+		resp.Body = io.NopCloser(bytes.NewReader(b))
+	}
 	t.mu.Lock()
 	lose := t.loseResp[key] > 0
 	if lose {
